@@ -9,11 +9,12 @@ From RxVerif Require Import Base.Prelude Core.VTime Core.VTimeFacts Core.Periodi
 
 (* schedule_periodic(p, f, st0) on a fresh scheduler at clock c0, then
    advance_to(t): the calls made, oldest first, are exactly [solo_spec], for every
-   period p >= 0, action table f, initial state, clock kind and fuel *)
+   period p >= 0, action table f (each call may take any amount of virtual time:
+   PNext _ sl _ sleeps sl microseconds), initial state, clock kind and fuel *)
 Theorem C35_calls : forall c fuel c0 p f st0 t, 0 <= p -> c0 < t ->
   let r := run c fuel (init c0) (solo_history p f st0 t) in
-  rev (ticks_of 0 (log (state_of r))) = solo_spec f p fuel (c0 + p) st0 t /\
-  (match r with ROutOfFuel _ => length (solo_spec f p fuel (c0 + p) st0 t) = fuel
+  rev (ticks_of 0 (log (state_of r))) = solo_spec f p fuel c0 (c0 + p) st0 t /\
+  (match r with ROutOfFuel _ => length (solo_spec f p fuel c0 (c0 + p) st0 t) = fuel
               | RDeadlock _ => False | RDone _ => True end).
 Proof. exact periodic_solo. Qed.
 Print Assumptions C35_calls.
@@ -24,24 +25,36 @@ Theorem C35_terminates : forall c fuel c0 p f st0 t, 0 < p -> c0 < t ->
 Proof. exact periodic_solo_terminates. Qed.
 Print Assumptions C35_terminates.
 
-(* closed form of the specification: the k-th call (k = 0, 1, ...) happens at
-   due + k*p (here due = c0 + p: exactly (k+1) periods after scheduling), not
-   after t, with the state returned by the previous call ([pstate]) *)
-Theorem C35_kth_call : forall f p n due st t k stk,
-  nth_error (solo_spec f p n due st t) k = Some stk ->
-  snd stk = due + Z.of_nat k * p /\ snd stk <= t /\ pstate f st k = Some (fst stk).
-Proof. exact solo_spec_nth. Qed.
+(* ELAPSED-TIME COMPENSATION.  For all action tables, i.e. all sequences of call
+   durations e_0, e_1, ...: if no earlier call took longer than the period
+   ([ontime]), the k-th call (k = 0, 1, ...) starts exactly at c0 + (k+1)*p, with the
+   state returned by the previous call *)
+Theorem C35_kth_call_on_time : forall f p n c0 st0 t k stk, 0 <= p ->
+  nth_error (solo_spec f p n c0 (c0 + p) st0 t) k = Some stk -> ontime f p st0 k ->
+  snd stk = c0 + (Z.of_nat k + 1) * p.
+Proof. exact solo_kth_ontime. Qed.
+Print Assumptions C35_kth_call_on_time.
+
+(* ... and in general (overruns allowed) it starts at c0 + p + the sum over the
+   earlier calls of max(p, duration of the call) -- a call that overruns delays its
+   successor to its own end, nothing is caught up and no call is ever early -- again
+   with the threaded state *)
+Theorem C35_kth_call : forall f p n c0 st0 t k stk, 0 <= p ->
+  nth_error (solo_spec f p n c0 (c0 + p) st0 t) k = Some stk ->
+  snd stk = c0 + p + tsum f p st0 k /\ c0 + (Z.of_nat k + 1) * p <= snd stk /\
+  pstate f st0 k = Some (fst stk).
+Proof. exact solo_kth_general. Qed.
 Print Assumptions C35_kth_call.
 
-(* ... and the calls stop only because the next one would be after t, or because
-   the last call did not return a state (the action raised or the subscription was
-   disposed): once per period, stops after the action raises *)
-Theorem C35_calls_complete : forall f p, 0 < p -> forall n due st t,
+(* the calls stop only because the pending call is due after t ([pdue]: one period
+   after the START of the last call), or because the last call did not return a state
+   (the action raised or the subscription was disposed) *)
+Theorem C35_calls_complete : forall f p, 0 < p -> forall n clk due st t,
   (Z.to_nat ((t - due) / p + 1) <= n)%nat ->
-  let l := solo_spec f p n due st t in
-  due + Z.of_nat (length l) * p > t \/
+  let l := solo_spec f p n clk due st t in
+  pdue f p clk due st (length l) > t \/
   (exists k x, length l = S k /\ pstate f st k = Some x /\
-               match plookup f x with PNext _ _ => False | _ => True end).
+               match plookup f x with PNext _ _ _ => False | _ => True end).
 Proof. exact solo_spec_complete. Qed.
 Print Assumptions C35_calls_complete.
 
@@ -61,7 +74,7 @@ Print Assumptions C35_raise_disposes.
 
 Theorem C35_stop_disposes : forall s pid st pi,
   nth_error (pers s) pid = Some pi -> p_disposed pi = false ->
-  match plookup (p_fn pi) st with PNext _ _ => False | _ => True end ->
+  match plookup (p_fn pi) st with PNext _ _ _ => False | _ => True end ->
   In (EPDispose pid) (log (bstate (invoke s (PPer pid st)))).
 Proof. exact periodic_stop_disposes. Qed.
 Print Assumptions C35_stop_disposes.
@@ -78,7 +91,7 @@ Proof. vm_compute. reflexivity. Qed.
    even when time advances further (after stop(): see C29's note on _is_enabled) *)
 Example C35_witness_raise :
   observe (run (Cfg Datetime false) 10 (init 0)
-             [TDo (SPeriodic 2 ([(0, PNext [] 5); (5, PNext [] 6)], PRaise [] 1) 0); TAdvTo 7;
+             [TDo (SPeriodic 2 ([(0, PNext [] 0%N 5); (5, PNext [] 0%N 6)], PRaise [] 1) 0); TAdvTo 7;
               TDo SStop; TAdvTo 20])
   = [OClock 0; OTick 0 0 2; OTick 0 5 4; OTick 0 6 6; OExc 1; OClock 6; OClock 6; OClock 20].
 Proof. vm_compute. reflexivity. Qed.
@@ -89,6 +102,25 @@ Example C35_witness_dispose :
              [TDo (SPeriodic 2 (count_table 8) 0); TDo (SSched (Abs 5) 0 [SPCancel 0]); TAdvTo 20])
   = [OClock 0; OClock 0; OTick 0 0 2; OTick 0 1 4; ORun 0 5; OClock 20].
 Proof. vm_compute. reflexivity. Qed.
+
+(* calls that take virtual time: 0.25 s and 2.5 s within a 3 s period are compensated
+   (calls at 3, 6, 9 s); the third call takes 4 s > period: the fourth starts when it
+   ends (13 s), the fifth one period after that START (16 s) *)
+Example C35_witness_elapsed :
+  observe (run (Cfg Numeric false) 10 (init 0)
+     (solo_history 3000000 ([(0, PNext [] 250000%N 1); (1, PNext [] 2500000%N 2); (2, PNext [] 4000000%N 3)],
+                            PNext [] 0%N 9) 0 17000000))
+  = [OClock 0; OTick 0 0 3000000; OTick 0 1 6000000; OTick 0 2 9000000; OTick 0 3 13000000;
+     OTick 0 9 16000000; OClock 17000000].
+Proof. vm_compute. reflexivity. Qed.
+
+Example C35_witness_ontime :
+  ontime ([(0, PNext [] 250000%N 1); (1, PNext [] 2500000%N 2); (2, PNext [] 4000000%N 3)], PNext [] 0%N 9)
+         3000000 0 2.
+Proof.
+  intros j x Hj Hx. assert (D : j = 0%nat \/ j = 1%nat) by lia.
+  destruct D as [D|D]; subst j; vm_compute in Hx; inversion Hx; subst; vm_compute; intro Q; discriminate Q.
+Qed.
 
 (* the hypotheses of C35_calls / C35_calls_complete are satisfiable *)
 Example C35_witness_hyps : 0 <= 3 /\ 200 < 215 /\ (Z.to_nat ((215 - 203) / 3 + 1) <= 10)%nat.
